@@ -199,7 +199,7 @@ def install_attackers(reg: Registry):
         ]
     reg.add(Contract(MM + ':Model.add_attacker', {'self': Obj(MODEL), 'attacker': Obj(AA), 'attacker_id': T('int', opt=True)},
                      requires=aa_requires, ensures=aa_ensures,
-                     modifies=LIST_ARRAYS + ('f_id', 'f_next_id', 'f_' + reg.schema.storage(AA, 'name')), props=('C05',),
+                     modifies=LIST_ARRAYS + ('f_id', 'f_next_id', 'f_' + reg.schema.storage(AA, 'name')), props=('C05', 'C07'),
                      param_defaults={'attacker_id': None}))
 
 
@@ -222,6 +222,12 @@ def install_add_asset(reg: Registry):
     def taken(c, s_):
         return c.old.has(c.old.f('asset_names', c.self), VStr(s_))
 
+    TK = z3.Function('CandidateTaken', z3.IntSort(), z3.BoolSort())     # definitional: candidate number j is a name in use (pre-state)
+
+    def tk_def(c):
+        j = z3.Int('j!tk')
+        return [FA([j], TK(j) == taken(c, cand(c, j)), [TK(j)])]
+
     def needs_gen(c):
         o, x = c.old, c.asset
         return z3.Or(z3.Not(o.f('has_name', x)), taken(c, o.f('name', x)))
@@ -243,7 +249,9 @@ def install_add_asset(reg: Registry):
         cnt_ = c.local('counter').t
         j = z3.Int('j!aa')
         return [('counter', cnt_ >= 1), ('candidate', S(c.local('unique_name'), cand(c, cnt_ - 1))),
-                ('earlier-taken', FA([j], z3.Implies(z3.And(0 <= j, j < cnt_ - 1), taken(c, cand(c, j))), [py_str(j)])),
+                ('earlier-taken', FA([j], z3.Implies(z3.And(0 <= j, j < cnt_ - 1), TK(j)), [TK(j)])),
+                # (also hands E-matching the term TK(counter - 1): the witness of `the first free candidate` in the postcondition)
+                ('current-candidate', TK(cnt_ - 1) == taken(c, cand(c, cnt_ - 1))),
                 ('gen', S(c.local('generated_name'), gen_name(c))),
                 ('heap', z3.And(*[h.arr[n] == c.hl.arr[n] for n in h.arr if not z3.eq(h.arr[n], c.hl.arr[n])], z3.BoolVal(True)))]
 
@@ -261,8 +269,8 @@ def install_add_asset(reg: Registry):
             ('next-id', h.f('next_id', M) == z3.If(v_i(k) + 1 >= o.f('next_id', M), v_i(k) + 1, o.f('next_id', M))),
             ('name.kept', z3.Implies(z3.Not(needs_gen(c)), nm == o.f('name', x))),
             # otherwise: the first candidate of gen, gen:1, gen:2, ... that no live asset has
-            ('name.generated', z3.Implies(needs_gen(c), z3.Exists([j], z3.And(j >= 0, nm == cand(c, j), z3.Not(taken(c, cand(c, j))),
-                                                                            FA([j2], z3.Implies(z3.And(0 <= j2, j2 < j), taken(c, cand(c, j2))), [py_str(j2)]))))),
+            ('name.generated', z3.Implies(needs_gen(c), z3.Exists([j], z3.And(j >= 0, nm == cand(c, j), z3.Not(TK(j)),
+                                                                            FA([j2], z3.Implies(z3.And(0 <= j2, j2 < j), TK(j2)), [TK(j2)])), patterns=[TK(j)]))),
             ('name.free', z3.Not(taken(c, nm))),
             ('has-name', h.f('has_name', x)),
             ('assets', z3.And(h.cnt(XL, x) == 1, FA([y], z3.Implies(y != x, h.cnt(XL, y) == o.cnt(XL, y)), [h.cnt(XL, y)]))),
@@ -281,10 +289,10 @@ def install_add_asset(reg: Registry):
         ]
 
     reg.add(Contract(MM + ':Model.add_asset', {'self': Obj(MODEL), 'asset': Obj(ASSET), 'asset_id': T('int', opt=True), 'allow_duplicate_names': T.bool},
-                     requires=requires, ensures=ensures, raises={'ValueError': raise_cond},
+                     requires=requires, ensures=ensures, raises={'ValueError': raise_cond}, defs=tk_def,
                      modifies=LIST_ARRAYS + DICT_ARRAYS + ('cls', 'own_obj', 'own_fld', 'f_id', 'f_next_id', 'f_name', 'f_has_name', 'f_associations',
                                                            'f_extras', 'f_has_extras'),
-                     allocates=True, props=('C05', 'C02'), param_defaults={'asset_id': None, 'allow_duplicate_names': True},
+                     allocates=True, props=('C05', 'C02', 'C07'), param_defaults={'asset_id': None, 'allow_duplicate_names': True},
                      loops={0: LoopSpec(inv, term_unverified=True,
                                         note='needs: finitely many names are taken and the candidates gen:1, gen:2, ... are pairwise different (string reasoning)')}))
 
